@@ -1,13 +1,79 @@
 // Package vrand stands in for "math/rand": every draw is an environment
-// choice of the explorer over a harness-declared menu.
+// choice of the explorer over a harness-declared menu (Config.RandMenu receives
+// the size of the range drawn from).
 package vrand
 
 import "github.com/pion/transport/v3/zzvsched"
 
-func Seed(int64)              {}
-func Intn(n int) int          { return int(zzvsched.RandChoice(int64(n))) }
-func Int63n(n int64) int64    { return zzvsched.RandChoice(n) }
-func Int31n(n int32) int32    { return int32(zzvsched.RandChoice(int64(n))) }
-func Int() int                { return int(zzvsched.RandChoice(1 << 62)) }
-func Uint32() uint32          { return uint32(zzvsched.RandChoice(1 << 32)) }
-func Float64() float64        { return float64(zzvsched.RandChoice(1<<53)) / (1 << 53) }
+// Source / Rand mirror the math/rand types so that locally created generators
+// are owned by the explorer as well.
+type Source interface {
+	Int63() int64
+	Seed(seed int64)
+}
+
+type src struct{}
+
+func (src) Int63() int64 { return zzvsched.RandChoice(1 << 62) }
+func (src) Seed(int64)   {}
+
+func NewSource(int64) Source { return src{} }
+
+type Rand struct{}
+
+func New(Source) *Rand { return &Rand{} }
+
+func draw(n int64) int64 {
+	if n <= 0 {
+		panic("invalid argument to rand draw")
+	}
+	return zzvsched.RandChoice(n)
+}
+
+func Seed(int64)           {}
+func Intn(n int) int       { return int(draw(int64(n))) }
+func Int63n(n int64) int64 { return draw(n) }
+func Int31n(n int32) int32 { return int32(draw(int64(n))) }
+func Int() int             { return int(zzvsched.RandChoice(1 << 62)) }
+func Int63() int64         { return zzvsched.RandChoice(1 << 62) }
+func Int31() int32         { return int32(zzvsched.RandChoice(1 << 31)) }
+func Uint32() uint32       { return uint32(zzvsched.RandChoice(1 << 32)) }
+func Uint64() uint64       { return uint64(zzvsched.RandChoice(1<<62)) << 1 }
+func Float64() float64     { return float64(zzvsched.RandChoice(1<<53)) / (1 << 53) }
+func Float32() float32     { return float32(zzvsched.RandChoice(1<<24)) / (1 << 24) }
+func Perm(n int) []int {
+	p := make([]int, n)
+	for i := range p {
+		p[i] = i
+	}
+	Shuffle(n, func(i, j int) { p[i], p[j] = p[j], p[i] })
+	return p
+}
+func Shuffle(n int, swap func(i, j int)) {
+	for i := n - 1; i > 0; i-- {
+		swap(i, int(draw(int64(i+1))))
+	}
+}
+func Read(p []byte) (int, error) {
+	for i := range p {
+		p[i] = byte(draw(256))
+	}
+	return len(p), nil
+}
+
+func (*Rand) Seed(int64)           {}
+func (*Rand) Intn(n int) int       { return Intn(n) }
+func (*Rand) Int63n(n int64) int64 { return Int63n(n) }
+func (*Rand) Int31n(n int32) int32 { return Int31n(n) }
+func (*Rand) Int() int             { return Int() }
+func (*Rand) Int63() int64         { return Int63() }
+func (*Rand) Int31() int32         { return Int31() }
+func (*Rand) Uint32() uint32       { return Uint32() }
+func (*Rand) Uint64() uint64       { return Uint64() }
+func (*Rand) Float64() float64     { return Float64() }
+func (*Rand) Float32() float32     { return Float32() }
+func (*Rand) Perm(n int) []int     { return Perm(n) }
+func (*Rand) Shuffle(n int, swap func(i, j int)) {
+	Shuffle(n, swap)
+}
+func (*Rand) Read(p []byte) (int, error) { return Read(p) }
